@@ -101,6 +101,18 @@ CHECKS = {
         "Re-validation at every transaction is checked on the code (harness sequences); its model (resolveDirty) is part of C08's state machine.",
    technique="Coq proof (characterisation of the accepted headers) + exhaustive single-byte sweep differential",
    design="DESIGN.md section 6, C15"),
+ "C05": dict(
+   text="Coq: in the model a Go run-time panic is the result Err EPanic (slice bounds incl. the capacity rule, index out of range, nil) and an unbounded loop is fuel; proved for EVERY byte string "
+        "presented as a database file and every legal page size: parseRecord, newBtree and the four cell parsers, addOverflow (cyclic / short / long chains; each page read at most once), "
+        "Table.Scan, Index.Scan, ScanMin, ScanEq, ScanRange, Table.Rowid and the reading of sqlite_master never panic and never run out of fuel, for every root page, key and callback "
+        "(C05_record, C05_page, C05_overflow, C05_table_scan ... C05_master). Every run: structure-aware and blind corruptions of SQLite-written files, directed pointer corruptions of "
+        "every interior page, hostile sqlite_master texts, the repository's fuzz files and earlier failures: every public operation with panic recovery and a time limit; low level "
+        "operations also through the extracted model. Found and repaired in this work: 7 panics / unbounded loops (see known_findings.json 'fixed').",
+   note="PARTIAL: the totality theorems cover the low level API and schema reading; the high level API (row mapping, key building), the SQL parser and Row.Scan are covered by the mutation "
+        "run on the code, not yet by a theorem. 'Hang' is judged by a generous per-operation wall-clock limit (8 s for operations that normally take < 50 ms). Known finding: exponential "
+        "re-traversal of fan-in DAGs below the depth limit. The pager contract (whole pages of the validated page size or an error) is a hypothesis of the theorems, met by the file pager and the harness pager.",
+   technique="Coq proof (panic-freedom and bounded fuel for all byte strings, by induction over the depth budget) + structure-aware mutation differential",
+   design="DESIGN.md section 6, C05"),
 }
 
 NOT_YET = {}
